@@ -81,7 +81,7 @@ Obs == CoN \cup BlN \cup CbN \cup PoN
 OwnerOf(n) == CHOOSE h \in H : n \in {N(h, "co"), N(h, "bl"), N(h, "cb"), N(h, "po")}
 
 VARIABLES
-    mode, rkind,   \* chosen in Init, constant afterwards
+    mode, rkind,   \* chosen by Setup, constant afterwards
     st,        \* the shared state (future_internal + control block): "none" | "alive" | "freed"
     slot,      \* future::_awaiter: "null" | "ready" | node
     nxt,       \* awaiter::_next of every node (doubles as the expected value of its CAS)
@@ -125,35 +125,57 @@ ChargeModes == {"fn", "fnsync"}
 StartPc(k) == CASE k = "dtor" -> "pre_dload" [] k = "final" -> "pre_final" [] k = "none" -> "done" [] OTHER -> "pre_claim"
 TrefOn == IF Variant = "notracer" THEN 0 ELSE 1
 
+(* Before Setup nothing exists; Setup(m, k) chooses the construction mode and the resolver kind and
+   runs the constructing thread up to its first scheduling point (the state graph has one root, the
+   first step of every behaviour tells the replayer what to build). *)
 Init ==
-    /\ mode \in Modes
-    /\ rkind \in (IF mode \in ReadyModes THEN {"none"} ELSE IF mode = "async" THEN {"final"} ELSE RKinds)
-    /\ st = IF mode = "late" THEN "none" ELSE "alive"
-    /\ slot = IF mode \in ReadyModes THEN "ready" ELSE "null"
+    /\ mode = "unset"
+    /\ rkind = "unset"
+    /\ st = "none"
+    /\ slot = "null"
     /\ nxt = [n \in ChainNodes |-> "null"]
-    /\ tag = CASE mode \in {"fnsync", "setval", "asyncsync"} -> "val" [] mode = "setexc" -> "exc" [] OTHER -> "none"
-    /\ payload = CASE mode = "fnsync" -> "fn" [] mode \in {"setval", "setexc"} -> "sv" [] mode = "asyncsync" -> "coro" [] OTHER -> "none"
-    /\ nh = [h \in H |-> IF h = Ctor /\ mode # "late" THEN 1 ELSE 0]
+    /\ tag = "none"
+    /\ payload = "none"
+    /\ nh = [h \in H |-> 0]
     /\ cref = [h \in H |-> 0]
-    (* fn/fnsync: the thread is parked at the CAS of charge(): `_ptr = ptr` already executed *)
-    /\ tref = IF mode \in ChargeModes THEN TrefOn ELSE 0
-    /\ tmp = IF mode \in ChargeModes THEN 1 ELSE 0
+    /\ tref = 0
+    /\ tmp = 0
     /\ copies = 0
-    /\ vlive = IF mode \in {"fnsync", "setval", "asyncsync"} THEN 1 ELSE 0
+    /\ vlive = 0
     /\ vdtor = 0
-    /\ rpc = IF mode \in {"fn", "retfut", "async"} THEN StartPc(rkind) ELSE IF mode = "late" THEN "nopromise" ELSE "done"
+    /\ rpc = "done"
     /\ cur = "null"
     /\ rest = "null"
     /\ sp = <<>>
     /\ flag = [h \in H |-> FALSE]
-    /\ pc = [h \in H |-> IF h # Ctor THEN "idle"
-                         ELSE CASE mode \in ChargeModes -> "pre_cas" [] mode = "late" -> "null_idle" [] OTHER -> "pre_pload"]
-    /\ cop = [h \in H |-> IF h # Ctor THEN "none"
-                          ELSE CASE mode \in ChargeModes -> "charge" [] mode = "late" -> "none" [] OTHER -> "ctor2"]
+    /\ pc = [h \in H |-> "idle"]
+    /\ cop = [h \in H |-> "none"]
     /\ did = [h \in H |-> {}]
     /\ seen = [o \in Obs |-> NoRes]
     /\ resumes = [o \in Obs |-> 0]
     /\ uaf = FALSE
+
+KindsOf(m) == IF m \in ReadyModes THEN {"none"} ELSE IF m = "async" THEN {"final"} ELSE RKinds
+
+Setup(m, k) ==
+    /\ mode = "unset"
+    /\ mode' = m
+    /\ rkind' = k
+    /\ st' = IF m = "late" THEN "none" ELSE "alive"
+    /\ slot' = IF m \in ReadyModes THEN "ready" ELSE "null"
+    /\ tag' = CASE m \in {"fnsync", "setval", "asyncsync"} -> "val" [] m = "setexc" -> "exc" [] OTHER -> "none"
+    /\ payload' = CASE m = "fnsync" -> "fn" [] m \in {"setval", "setexc"} -> "sv" [] m = "asyncsync" -> "coro" [] OTHER -> "none"
+    /\ nh' = [h \in H |-> IF h = Ctor /\ m # "late" THEN 1 ELSE 0]
+    (* fn/fnsync: the thread is parked at the CAS of charge(): `_ptr = ptr` already executed *)
+    /\ tref' = IF m \in ChargeModes THEN TrefOn ELSE 0
+    /\ tmp' = IF m \in ChargeModes THEN 1 ELSE 0
+    /\ vlive' = IF m \in {"fnsync", "setval", "asyncsync"} THEN 1 ELSE 0
+    /\ rpc' = IF m \in {"fn", "retfut", "async"} THEN StartPc(k) ELSE IF m = "late" THEN "nopromise" ELSE "done"
+    /\ pc' = [h \in H |-> IF h # Ctor THEN "idle"
+                          ELSE CASE m \in ChargeModes -> "pre_cas" [] m = "late" -> "null_idle" [] OTHER -> "pre_pload"]
+    /\ cop' = [h \in H |-> IF h # Ctor THEN "none"
+                           ELSE CASE m \in ChargeModes -> "charge" [] m = "late" -> "none" [] OTHER -> "ctor2"]
+    /\ UNCHANGED <<nxt, cref, copies, vdtor, cur, rest, sp, flag, did, seen, resumes, uaf>>
 
 -----------------------------------------------------------------------------
 (* helpers *)
@@ -525,14 +547,16 @@ HandleStep(h) == \/ Drop(h) \/ BeginPoll(h) \/ BeginWait(h) \/ BeginCo(h) \/ Beg
                  \/ PreFence(h) \/ PostFence(h) \/ PreWait(h) \/ PostWait(h)
                  \/ \E g \in H : Copy(h, g)
 
-Next == \/ \E r \in {R} : PreClaim(r) \/ PostClaim(r) \/ PreDload(r) \/ PostDload(r) \/ PreFinal(r)
+Next == \/ \E m \in Modes : \E k \in KindsOf(m) : Setup(m, k)
+        \/ \E r \in {R} : PreClaim(r) \/ PostClaim(r) \/ PreDload(r) \/ PostDload(r) \/ PreFinal(r)
                           \/ PreSwap(r) \/ PostSwap(r) \/ PreFstore(r) \/ PostFstore(r) \/ PreNotify(r) \/ PostNotify(r)
         \/ \E h \in H : \/ Drop(h) \/ BeginPoll(h) \/ BeginWait(h) \/ BeginCo(h) \/ BeginCb(h) \/ NullPoll(h) \/ LateInit(h)
                         \/ PrePload(h) \/ PostPload(h) \/ PreCheck(h) \/ PostCheck(h) \/ PreCAS(h) \/ PostCAS(h)
                         \/ PreFence(h) \/ PostFence(h) \/ PreWait(h) \/ PostWait(h)
         \/ \E h \in H : \E g \in H : Copy(h, g)
 
-Fair == /\ WF_vars(ResolverStep(R))
+Fair == /\ WF_vars(\E m \in Modes : \E k \in KindsOf(m) : Setup(m, k))
+        /\ WF_vars(ResolverStep(R))
         /\ \A h \in H : WF_vars(HandleStep(h))
 
 Spec == Init /\ [][Next]_vars /\ Fair
@@ -555,7 +579,8 @@ TypeOK ==
     /\ rpc \in RPcs
     /\ vlive \in {0, 1}
 
-Terminal == /\ rpc = "done"
+Terminal == /\ mode # "unset"
+            /\ rpc = "done"
             /\ \A h \in H : pc[h] = "idle" /\ nh[h] = 0 /\ cref[h] = 0
 
 (* the shared state is alive exactly as long as something references it ... *)
